@@ -100,8 +100,41 @@ sys.exit(0)
 '''
 
 
+INLINE_LITERAL = r'''
+import sys
+import numpy as np
+import onnx_ir as ir
+from onnxscript import script, FLOAT
+from onnxscript import opset21 as op
+from onnxscript._internal import builder as B
+
+@script(default_opset=op)
+def addmul(a: FLOAT[2], b: FLOAT[2]) -> FLOAT[2]:
+    return (a + b) * b
+
+def build(literal):
+    g = ir.Graph([], [], nodes=[], opset_imports={"": 21}, name="main")
+    gb = B.GraphBuilder(g)
+    x = gb.input("x", ir.DataType.FLOAT, [2])
+    y = gb.call_inline(addmul, x, [1.0, 2.0] if literal else x)
+    y.name = "y"; y.type = ir.TensorType(ir.DataType.FLOAT); y.shape = ir.Shape([2])
+    g.outputs.append(y)
+    return ir.to_proto(ir.Model(g, ir_version=10))
+import onnxruntime as ort
+x = np.array([1.0, 2.0], dtype=np.float32)
+want = ort.InferenceSession(build(False).SerializeToString(), providers=["CPUExecutionProvider"]).run(None, {"x": x})[0]
+try:
+    got = ort.InferenceSession(build(True).SerializeToString(), providers=["CPUExecutionProvider"]).run(None, {"x": x})[0]
+except Exception as e:
+    print("call_inline(addmul, x, [1.0, 2.0]) with a Python literal operand fails:", type(e).__name__, str(e).splitlines()[0][:150], "— with a tensor operand it gives", want.tolist())
+    sys.exit(1)
+sys.exit(0 if np.allclose(want, got) else 1)
+'''
+
 def replay(ob):
     n = ob["name"]
+    if "call_inline.operands_are_promoted" in n:
+        return INLINE_LITERAL
     if "module_called_in_a_subgraph_body" in n:
         return IN_BODY
     if "subgraph" in n:
